@@ -8,7 +8,7 @@ PROPERTY = "C01"
 LEVEL = "exploration"
 NEEDS = ()
 EXHAUSTIVE = {"quick": False, "thorough": True}
-REQUIRED_MONITORS = ["consumer_consistency", "trailing_independence", "history_redecode",
+REQUIRED_MONITORS = ["consumer_consistency", "trailing_independence", "history_redecode", "same_address_twin",
                      "template_fingerprint", "truncation"]
 RULE = ("heads = (prefix in {none,0x21-0x27,0x30-0x37}) x opcode x second byte (thorough: all 256 second "
         "bytes = the complete structural space; quick: 14 second bytes covering every mode-nibble class) "
@@ -36,13 +36,13 @@ def _setup():
     return _arch
 
 
-def consumers(buf: bytes, addr: int):
+def consumers(buf: bytes, addr: int, arch=None):
     """Run the 4 real consumers. Returns (outcome, errors).
     outcome = dict(info=(len, branches)|None, text=(len, mnemonic, tokens)|None, il=(len, shape)|None,
                    emu=(len, name))"""
     from ..pyside import FlatMem, il_shape, tokens_key, MockLowLevelILFunction
     from sc62015.pysc62015.emulator import Emulator
-    arch = _setup()
+    arch = arch or _setup()
     errs = []
     out = {}
     try:
@@ -251,6 +251,22 @@ def run_shard(spec) -> Result:
         for x in viol:
             x["sig"]["op"] = f"{head[1]:02X}" if head[1] is not None else "--"
             res.violation(x["sig"], x["case"], x["detail"])
+        # same address, same leading bytes, different LAST instruction byte queried right afterwards on the shared
+        # architecture object: a memo keyed by address and a prefix of the bytes would answer with the previous decode
+        if acc is not None and acc["info"] and acc["info"][0] >= 2 and (acc["info"][0] >= 5 or n % 3 == 0):
+            L = acc["info"][0]
+            tw = bytearray(buf)
+            tw[L - 1] ^= 0x11
+            tw = bytes(tw)
+            from sc62015.arch import SC62015
+            want, _ = consumers(tw, addr, arch=SC62015())
+            got, _ = consumers(tw, addr)
+            res.monitor("same_address_twin")
+            if got != want:
+                res.violation({"clause": "history_dependent", "how": "same_address_twin", "op": f"{head[1]:02X}" if head[1] is not None else "--"},
+                              {"buf": buf.hex(), "twin": tw.hex(), "addr": addr},
+                              {"fresh_object": repr(want)[:300], "after_previous_query": repr(got)[:300]})
+            consumers(buf, addr)    # leave the shared object as the history test below expects
         history.append((buf, addr, out))
         if len(history) > 7:
             ob, oa, oo = history.pop(0)
